@@ -172,6 +172,9 @@ func c12Exec(r *vf.Run, k c12Case) (keys, whats []string) {
 			r.HarnessError("C12 file case %+v: the producer fault did not fire", k)
 			return
 		}
+		if ferr != nil {
+			r.Outcome(fmt.Sprintf("reached/file-api=%d/error-reported", k.File))
+		}
 		if ferr == nil {
 			add(fmt.Sprintf("silent-success/file-api=%d/%s", k.File, cls), fmt.Sprintf("%s returned nil although the destination / a producer failed (%s)", what, spec.Describe()))
 		}
@@ -209,6 +212,15 @@ func c12Exec(r *vf.Run, k c12Case) (keys, whats []string) {
 		} else if n2 != int64(clean.Len()) {
 			add("count-mismatch/render-after-failure/"+cls, fmt.Sprintf("a fault-free WriteTo after a failed one returned n=%d for %d bytes (%s)", n2, clean.Len(), spec.Describe()))
 		}
+	}
+	if sink.fired && sink.accepted > 0 && k.Style == 0 {
+		r.Outcome("reached/sink-short-write")
+	}
+	if prodFired {
+		r.Outcome(fmt.Sprintf("reached/producer-failure/err-kind=%d", k.ErrKind%len(c12Errs)))
+	}
+	if spec.Recycle > 0 {
+		r.Outcome("reached/recycled-msg")
 	}
 	faulted := sink.fired || prodFired
 	fault := "sink"
@@ -368,6 +380,7 @@ func init() {
 					})
 				}
 			})
+			r.Reached("reached/file-api=1/error-reported", "reached/file-api=2/error-reported", "reached/file-api=3/error-reported", "reached/file-api=4/error-reported", "reached/sink-short-write", "reached/producer-failure/err-kind=0", "reached/producer-failure/err-kind=1", "reached/producer-failure/err-kind=2", "reached/recycled-msg")
 		},
 		Replay: func(r *vf.Run, kase json.RawMessage) {
 			var k c12Case
